@@ -275,11 +275,17 @@ Decls  == <<"main", "lib", "deep">>                 \* main imports lib and deep
 Sites  == <<"main", "lib">>
 Vias   == <<"direct", "helper", "foreign">>         \* API called at the site / by a helper of the site's
                                                     \* package / by an exported helper of a dependency
-Conss  == <<"value", "ptr", "slice", "variadic", "field", "iface-any", "iface-method", "array", "map">>
+Conss  == <<"value", "ptr", "slice", "variadic", "field", "iface-any", "iface-method", "array", "map",
+            "iface-field-store", "convert">>
                                                     \* field: the value travels in a field of a struct that a helper
                                                     \* fills from its parameter and hands to the reflecting function;
                                                     \* iface-any / iface-method: held in a variable of type any /
-                                                    \* of an interface type with a method before it is passed
+                                                    \* of an interface type with a method before it is passed;
+                                                    \* iface-field-store: stored into an interface-typed field of a
+                                                    \* struct value that is then marshalled (checkFunction's Store
+                                                    \* rule, which fires on a later pass of the fixpoint);
+                                                    \* convert: converted from a struct type with the same underlying
+                                                    \* type right at the call (the ChangeType rule, later pass too)
 TShapes == <<"plain", "nested", "embedded", "ptrfield", "slicefield", "mapfield", "arrayfield",
              "anon", "generic", "alias", "defined", "embedded-ptr", "nested2">>
 Apis   == <<"typeof", "valueof", "marshal", "unmarshal">>
@@ -294,6 +300,8 @@ Applicable(c) ==
   /\ (c.cons \in {"variadic", "field"} => c.via # "direct")   \* these flows need a helper function
   /\ (c.api = "unmarshal" => c.cons \in {"value", "ptr", "iface-any"})       \* needs a pointer to one value
   /\ (c.tshape = "defined" => c.api \in {"typeof", "valueof"})  \* a defined int has no JSON keys
+  /\ (c.cons = "iface-field-store" => c.api = "marshal" /\ c.tshape # "defined")   \* only marshalling looks inside the field
+  /\ (c.cons = "convert" => c.tshape = "plain" /\ c.decl = c.site /\ c.api # "unmarshal")
 
 NonDefault(c) ==
   (IF c.decl # Decls[1] THEN 1 ELSE 0) + (IF c.site # Sites[1] THEN 1 ELSE 0) + (IF c.via # Vias[1] THEN 1 ELSE 0) +
